@@ -3,7 +3,7 @@ from ..paths import explore, describe, describe_rv, pretty_place, bool_label
 from ..rules import calls_to, calls_where, blocks_of
 from ..facts import callee_path, op_local, is_place
 
-TEXT = ("Error discipline over the file-loading code: every Result carrying a symphonia / io / FromFileError error and every Option taken from the container metadata is propagated (?, ok_or, match), never unwrapped or dropped; the only expect() calls are integer width conversions; 1 channel -> from_mono, 2 -> Frame::new, anything else -> Err(UnsupportedChannelConfiguration) with no access to a missing channel; the load loop leaves only by break on UnexpectedEof or by returning the error. Sample fidelity, frame counts, streaming == loading and Symphonia's own behaviour on corrupt input are not decided. After every Decoder::seek the scheduler records the index the seek actually reached. A frame behind the decoder position is reached by seeking back; the static loader appends every decoded packet. The streaming decoder reports the sample rate of the codec parameters. A relative streaming seek starts from the published playback position. Nothing but decoded packets grows a loaded sound; a decoded chunk answers None for an index before its first frame; a new streaming sound's transport starts at the requested position; the twin data builders agree. The loaders size no allocation with a value that does not come from decoded audio; every success path of seek_to_index seeks the decoder. The streaming decoder's frame count is the file's n_frames converted as an integer; the published playback position (from which a relative seek starts) crosses threads at full width. The decoder is sent to the frame a seek command names (wrapped by the transport afterwards) and, by the frame lookup, to that frame plus the slice start. What DecodeScheduler::new stores as the slice is what it was given; a failed seek ends the stream like a decode error (propagated, never swallowed); the streaming handle writes every seek it is given. No arithmetic or index assert exists in the file-decoding code (overflow-checks configuration): a count or index computed from what a header claims is an obligation the moment it appears. The decoder thread polls every seek command on every turn, relative before absolute. Each decoded chunk's start index is the decoder's frame counter read when that chunk was decoded.")
+TEXT = ("Error discipline over the file-loading code: every Result carrying a symphonia / io / FromFileError error and every Option taken from the container metadata is propagated (?, ok_or, match), never unwrapped or dropped; the only expect() calls are integer width conversions; 1 channel -> from_mono, 2 -> Frame::new, anything else -> Err(UnsupportedChannelConfiguration) with no access to a missing channel; the load loop leaves only by break on UnexpectedEof or by returning the error. Sample fidelity, frame counts, streaming == loading and Symphonia's own behaviour on corrupt input are not decided. After every Decoder::seek the scheduler records the index the seek actually reached. A frame behind the decoder position is reached by seeking back; the static loader appends every decoded packet. The streaming decoder reports the sample rate of the codec parameters. A relative streaming seek starts from the published playback position. Nothing but decoded packets grows a loaded sound; a decoded chunk answers None for an index before its first frame; a new streaming sound's transport starts at the requested position; the twin data builders agree. The loaders size no allocation with a value that does not come from decoded audio; every success path of seek_to_index seeks the decoder. The streaming decoder's frame count is the file's n_frames converted as an integer; the published playback position (from which a relative seek starts) crosses threads at full width. The decoder is sent to the frame a seek command names (wrapped by the transport afterwards) and, by the frame lookup, to that frame plus the slice start. What DecodeScheduler::new stores as the slice is what it was given; a failed seek ends the stream like a decode error (propagated, never swallowed); the streaming handle writes every seek it is given. No arithmetic or index assert exists in the file-decoding code (overflow-checks configuration): a count or index computed from what a header claims is an obligation the moment it appears. The decoder thread polls every seek command on every turn, relative before absolute. Each decoded chunk's start index is the decoder's frame counter read when that chunk was decoded. DecodeScheduler::new leaves the transport as Transport::new built it, from the settings' own loop region.")
 TECHNIQUE = 'MIR error-discipline (result-flow) and path rules'
 
 FNS = ['sound::static_sound::data::from_file::<impl sound::static_sound::data::StaticSoundData>::from_boxed_media_source',
